@@ -55,7 +55,7 @@ class C20(Prop):
         for i in range(n):
             if i % 3 != 2:
                 d = gen_d(rng, 0, [rng.choice([4, 8, 14])])
-                ops = ["text %d" % rng.choice([0, 0, 1, 3])]
+                ops = ["text %d" % rng.choice([0, 0, 1, 3]), "texts %d" % rng.choice([0, 2])]
                 for vis in range(4):
                     for col in "01":
                         ops.append("dot %d %s" % (vis, col))
